@@ -26,6 +26,9 @@ func runC06(o *out, r *rng, thorough bool, rp string) {
 		if i%10 == 9 {
 			res = lateQualityScenario(r, viol)
 			o.Dist["late-quality-scenario"]++
+		} else if i%10 == 4 {
+			res = splitRoundsScenario(r, viol)
+			o.Dist["split-rounds-scenario"]++
 		} else {
 			res = simScenario(r, viol)
 		}
